@@ -28,6 +28,7 @@ PROGRAMS = [
     "count = 0\nfor item in basket:\n    count = count + 1\n    price = item + 1\nprint(count + 1, price * 2)\n",
     "a = 0\nprint(b)\nc = 5\nprint(a)\nfor i in data:\n    print(x)\n    print(y)\n    z = x\n",
     "for report in reports:\n    if report[city] == 1:\n        pass\n_row_count = 0\ntotal = 0\ndef _helper_fn():\n    pass\ndef other():\n    pass\n",
+    "a = 1\nb = print(a)\nxs = [5, 6, 7]\nc = xs[:a] + 1\nd = xs[a:] + 1\ndef f():\n    return print(a)\n",
     "total = 0\nseen = 0\ndef bump():\n    global total\n    total = total + 1\ndef both():\n    global total, seen\n    seen = 1\n"
     "raw = b'abc'\nz = 2j\ndef inner():\n    v = 1\n    def g():\n        nonlocal v\n        v = 2\n",
 ]
@@ -46,6 +47,7 @@ HAND_PATTERNS = [
     "_r_ = b''", "z = 2j", "z = 3j", "_z_ = 2j", "nonlocal v", "nonlocal v, w",
     "_x_ = 0\nprint(_x_)\n_y_ = 5", "_x_ = 0\nprint(_x_)", "for _i_ in __a__:\n    print(__b__)", "for _i_ in ___:\n    print(__b__)\n    _z_ = __b__",
     "print(__b__)\nprint(__c__)", "_p_ = ___\nprint(_q_)\n_r_ = ___\nprint(_p_)",
+    "a = 1\nprint(a)", "def f():\n    print(a)", "xs[a:] + 1", "xs[:a] + 1", "xs[a:]", "___[_i_:] + ___", "___[:_i_] * ___",
     "_row_count = 0", "_tmp_val = ___", "def _helper_fn():\n    pass", "def _other_fn():\n    pass", "_x_y = 0",
     "for _w_ in ___:\n    print(_w_)", "for _w_ in ___:\n    print(len(_w_))", "for _w_ in ___:\n    print(_q_)",
 ]
@@ -97,6 +99,14 @@ def check_match(m, pattern, program, earlier=None):
     """-> list of (canon, detail) violations of the embedding witness; `earlier` = the match this one continues
     (use_previous): its pairings are carried along, only the new pattern's placeholders are judged for binding"""
     bad = []
+
+    def _below(node):
+        p = node.parent
+        while p is not None:
+            if type(p.astNode).__name__ == 'BinOp' and type(p.astNode.op).__name__ in ('Add', 'Mult'):
+                return True
+            p = p.parent
+        return False
     pairs = list(m.mappings.items())
     carried = set(id(i) for i in earlier.mappings) if earlier is not None else set()
     partner = dict((id(i), s) for i, s in pairs)
@@ -116,7 +126,8 @@ def check_match(m, pattern, program, earlier=None):
         if tname == 'Expr' and type(ia.value).__name__ == 'Name' and kind_of_name(ia.value.id) in ('wild', 'expr'):
             continue                     # a bare wildcard statement
         if tname == 'Expr' and type(sa).__name__ != 'Expr':
-            bad.append(('kind_mismatch', 'pattern Expr paired with student %s' % type(sa).__name__))
+            bad.append(('expression_statement_paired_with_another_statement_kind',
+                        'pattern expression statement %r paired with student %s' % (ast.unparse(ia)[:30], type(sa).__name__)))
             continue
         if type(ia) is not type(sa):
             # _var_ in attribute / argument position may pair with the node carrying the identifier
@@ -130,14 +141,30 @@ def check_match(m, pattern, program, earlier=None):
             if f == NAME_FIELDS.get(tname) and kind in ('var', 'wild'):
                 continue
             if f not in sp or sp[f] != v or type(sp[f]) is not type(v):
-                bad.append(('content_mismatch', 'pattern %s.%s = %r paired with student %s.%s = %r' % (
+                bad.append(('content_mismatch' + (' (below a + or *)' if _below(ins) else ''), 'pattern %s.%s = %r paired with student %s.%s = %r' % (
                     tname, f, v, type(sa).__name__, f, sp.get(f, '<missing>'))))
         # structure: the partner of my parent is the parent of my partner
         if ins.parent is not None and id(ins.parent) in partner:
             pstd = partner[id(ins.parent)]
+            commutative = type(ins.parent.astNode).__name__ == 'BinOp' and type(ins.parent.astNode.op).__name__ in ('Add', 'Mult')
+            if std.parent is pstd and ins.field != std.field and not commutative and ins.field not in ('none',) \
+                    and std.field not in ('none',):
+                bad.append(('child_paired_across_fields' + (' (below a + or *)' if _below(ins) else ''), 'pattern %s.%s paired with student %s.%s' % (
+                    type(ins.parent.astNode).__name__, ins.field, type(pstd.astNode).__name__, std.field)))
             if std.parent is not pstd:
                 bad.append(('not_a_direct_child', 'pattern %s under %s: student %s is not a child of the partner %s' % (
                     tname, type(ins.parent.astNode).__name__, type(sa).__name__, type(pstd.astNode).__name__)))
+    def below_commutative(node):
+        p = node.parent
+        while p is not None:
+            if type(p.astNode).__name__ == 'BinOp' and type(p.astNode.op).__name__ in ('Add', 'Mult'):
+                return True
+            p = p.parent
+        return False
+    flagged = []
+    for canon, detail in bad:
+        flagged.append((canon, detail))
+    bad = flagged
     # left-to-right order of mapped siblings
     by_parent = {}
     for ins, std in pairs:
@@ -296,8 +323,8 @@ def bounded(arg):
                                      pattern, sorted(map(str, missing)), program, len(matches))})
             for m in matches or []:
                 for canon, detail in check_match(m, pattern, program):
-                    if sum(1 for f in failures if f['id'] == canon) < 15:
-                        failures.append({'id': canon, 'canon': canon,
+                    if sum(1 for f in failures if f['canon'] == canon) < 15:
+                        failures.append({'id': canon.split(' (')[0], 'canon': canon,
                                          'detail': detail + ' | pattern %r | program %r' % (pattern, program)})
     follow_ups = 0
     from pedal.cait.cait_api import find_matches
@@ -315,8 +342,8 @@ def bounded(arg):
                 for m2 in later or []:
                     follow_ups += 1
                     for canon, detail in check_match(m2, second, program, earlier=m1):
-                        if sum(1 for f in failures if f['id'] == canon) < 15:
-                            failures.append({'id': canon, 'canon': canon, 'detail': detail + ' | follow-up pattern %r after %r | program %r' % (
+                        if sum(1 for f in failures if f['canon'] == canon) < 15:
+                            failures.append({'id': canon.split(' (')[0], 'canon': canon, 'detail': detail + ' | follow-up pattern %r after %r | program %r' % (
                                 second, first, program)})
     samples = [{'pattern': HAND_PATTERNS[0], 'program': PROGRAMS[0]}, {'pattern': HAND_PATTERNS[13], 'program': PROGRAMS[4]}]
     return {'name': 'B-cait-sound', 'bound': '%d programs x (%d hand-written patterns + %d patterns derived from the program\'s own '
